@@ -48,6 +48,7 @@ RULES = {
     "SORTEDEMIT": determinism.rule_sortedemit,
     "IDORDER": determinism.rule_idorder,
     "REPRLEAK": determinism.rule_reprleak,
+    "SYMORDER": determinism.rule_symorder,
     "CHILDREN": patterns.rule_children,
     "FINDORDER": patterns.rule_findorder,
     "PASTTOTAL": patterns.rule_pasttotal,
